@@ -304,6 +304,7 @@ func (h *harness) check(res *kernel.Result) {
 		}
 	}
 	res.Count("probe.overlapping_operation_pairs", int64(overlap))
+	res.Count("probe.same_instant_events_of_two_threads", h.collisions)
 	delivered := uint32(0)
 	for k := 0; k < h.nc; k++ {
 		delivered |= masks[k]
